@@ -19,7 +19,8 @@ RULE = ("Every public entry point is called with caller-owned arrays in drawn la
         "(including the whole underlying buffer of a view), dtype, shape, strides and flags are identical before and after, "
         "lists keep length and element identity, and the read-only call returns bitwise the same result as the writable one. "
         "Non-trivial = at least one array argument is read-only, non-C-contiguous, or the call failed; distinct by SHA-1 of the case."
-        ' Failing calls include array arguments of undescribed shapes ((T,1)/(1,T)/over-long cost arrays, flattened/3-D weight arrays): contents, shape and strides must survive.')
+        ' Failing calls include array arguments of undescribed shapes ((T,1)/(1,T)/over-long cost arrays, flattened/3-D weight arrays): contents, shape and strides must survive.'
+        ' Tables with NaN/inf entries; model matrices of dimension 2..6, read-only, Fortran-ordered.')
 ASSUMPTIONS = ["fault injection substitutes the public optimiser entry point under a synchronous stand-in pool (so the fault fires in-process)"]
 
 
